@@ -45,7 +45,27 @@ def gen_cases(rep):
                 for e in ents:
                     if len(e[17]) > 2:
                         e[17] = e[17][:len(e[17]) // 2]
+            # birth times on either side of mtime (formats with a creation-time field decide per entry what to store)
+            for e in ents:
+                if e[9] and r.random() < 0.5:
+                    sec = e[9][0][0]
+                    e[12] = [[sec + r.choice([-100, 0, 1, 1000, 10**6]), r.choice([0, 5, 999999999])]]
             out.append((fmt, opts, flt, bpb, bilb, ents, plain))
+        # directed: names and link targets far longer than any fixed field (continuation records, extended headers,
+        # long-name entries), all four time stamps set, creation time later than mtime
+        long_name = b"dir/" + b"L" * 120 + b".txt"
+        directed = [C10.ent(path=b"dir", mode=C10.DIR | 0o755, mtime=(5000, 0)),
+                    C10.ent(path=long_name, size=10, body=b"0123456789", mode=C10.REG | 0o640, uid=1000, gid=100, uname=b"user", gname=b"grp",
+                            mtime=(1000, 0), atime=(3000, 5), ctime=(1500, 0), btime=(2000, 0)),
+                    C10.ent(path=b"dir/" + b"K" * 95, size=3, body=b"abc", mtime=(2000, 0), btime=(2000, 0)),
+                    C10.ent(path=b"dir/" + b"s" * 100, mode=C10.LNK | 0o777, sym=b"t" * 150, mtime=(1000, 0), btime=(999, 0)),
+                    C10.ent(path=b"dir/plain", size=1, body=b"x", mtime=(7, 0), btime=(1 << 33, 0))]
+        for opts in spec.get("options", [b""])[:3]:
+            if b"iso-level=4" in opts:
+                continue
+            if fmt == "iso9660" and not opts:
+                opts = b"iso9660:rockridge=strict"
+            out.append((fmt, opts, b"", 0, -1, [list(e) for e in directed], False))
     return out
 
 def line_for(c, poison, op=2):
